@@ -78,3 +78,6 @@ import PyYetiVerif.Props.C13Set
 #print axioms PyYetiVerif.C13.uset_bulk_roundtrip_labels_full
 #print axioms PyYetiVerif.C13.set_header_split_fails
 #print axioms PyYetiVerif.C13.set_roundtrip_iff_partial
+#print axioms PyYetiVerif.C13.dmig_field_fits
+#print axioms PyYetiVerif.C13.dmig_terms_in_range
+#print axioms PyYetiVerif.C13.tabled1_field_overflow_counterexample
